@@ -67,6 +67,12 @@ def specs(rng, tier, wid, nw, env):
             for s in (1, -1):
                 k += 1
                 if k % nw == wid: yield ('zint', s * ((1 << kk) + d), rng.getrandbits(48))
+    # mpq_get_d / mpz_get_d / mpf_get_d at the ends of double's range: quotients of every size relation (numerator 1..12 limbs, denominator
+    # up to 18 limbs longer or shorter) whose exact value lies in the denormal range, around DBL_MIN, around DBL_MAX (A50: a size-based
+    # 'certainly zero' shortcut one limb too early)
+    for i in range(1500 if q else 30000):
+        k += 1
+        if k % nw == wid: yield ('qd', rng.getrandbits(48))
     N = 4000 if q else 130000
     for i in range(N):
         c = rng.random()
@@ -181,6 +187,33 @@ def build(spec, env):
             return out
         ex = a.numerator.bit_length() - a.denominator.bit_length()
         return Case(cmds, check, 8, ('q', ex // 16 if abs(ex) < 1200 else 999 * (1 if ex > 0 else -1), a < 0, a == b), trivial=(a == 0))
+    if kind == 'qd':
+        nb = r.choice([r.randint(1, 64), r.randint(1, 64), r.randint(65, 200), r.randint(200, 800), 64 * r.randint(1, 12) + r.choice([-1, 0, 1])])
+        et = r.choice([r.randint(-1140, -1060), r.randint(-1080, -1070), r.randint(-1030, -1015), r.randint(1015, 1030), r.randint(-1200, 1200), -1074, -1075, -1022, -1023, 1023, 1024])
+        n = r.getrandbits(nb) | (1 << (nb - 1)) | 1
+        db = nb - et
+        if db >= 1:
+            d = r.getrandbits(db) | (1 << (db - 1))
+            if r.random() < 0.5: d = 1 << (db - 1)            # power of two denominator: the quotient's mantissa is the numerator itself
+            else: d |= 1
+            a = Fraction(n, d)
+        else:
+            a = Fraction(n << (1 - db), 1)
+        if r.random() < 0.4: a = -a
+        fm = a.numerator; fe = -(a.denominator.bit_length() - 1) if a.denominator & (a.denominator - 1) == 0 else None
+        cmds = ['q Q1 %s %s' % (hx(a.numerator), hx(a.denominator)), 'c mpq_get_d Q1']
+        if fe is not None: cmds += [ftoks('F1', fm, fe), 'c mpf_get_d F1']
+        if a.denominator == 1: cmds += ['z Z1 %s' % hx(a.numerator), 'c mpz_get_d Z1']
+        def check(rep, a=a):
+            out = []
+            for i_, c_ in enumerate(cmds):
+                if not c_.startswith('c '): continue
+                v, _ = split_reply(rep[i_]); s_ = v[0]
+                gd = (math.inf if s_[0] != '-' else -math.inf) if 'inf' in s_ else float.fromhex(s_)
+                if not ok_get_d(gd, a): out.append(('%s:wrong' % c_.split()[1], 'a=%s/%s got=%s want=%s' % (hx(a.numerator)[:60], hx(a.denominator)[:40] + ('..(%d bits)' % a.denominator.bit_length()), s_, models.trunc_frac_d(a).hex())))
+            return out
+        ex = a.numerator.bit_length() - a.denominator.bit_length()
+        return Case(cmds, check, len([c_ for c_ in cmds if c_.startswith('c ')]), ('qd', max(-1150, min(1100, ex)) // 4, gen.nlimbs(a.denominator) - gen.nlimbs(a.numerator), a < 0))
     if kind == 'f':
         def rf():
             c = r.random()
